@@ -89,7 +89,7 @@ PROPS = {
                 pending=['programs that DO contain mutators or compound assignments: which objects they may change (the receiver of the mutator and nothing else) — the mutator-free case is proved over whole runs (quiet_program_changes_no_host_object), all 35 non-mutating table entries individually']),
     'C14': dict(obligations=lambda: P('SqProps.C14') + T('SqTie.Consts', 'cast_dict_keys_tie'),
                 slices=['ops'], monitors=['c14'],
-                pending=['ops_refine for lists through the heap (the list object IS a mathematical list; index normalisation proved); dict ops_refine proved over all operation sequences']),
+                pending=['the value copies made by `c[k] = v` (deep copy before the store) composed with ops_refine_list; slices of lists; dict and list refinement are proved over all operation sequences']),
     'C15': dict(obligations=lambda: P('SqProps.C15') + TIE_LEX + TIE_GRAM + TIE_TOK,
                 slices=['layout'], monitors=['c15'],
                 pending=['lex_extra_blank over whole texts (character-level half; the token-level half is proved: SqLemmas/ParseLayout.lean)']),
